@@ -14,6 +14,41 @@ fn main() {
         bpv::props::c18::child_main(&args[1]);
         return;
     }
+    if id == "gen-corpus" {
+        // bpcheck gen-corpus <dir>: write the seed corpora of the two fuzz targets
+        let (dec, ver) = bpv::fuzzdec::seed_corpus();
+        for (name, set) in [("decode", dec), ("verify", ver)] {
+            let d = PathBuf::from(&args[1]).join(name);
+            std::fs::create_dir_all(&d).expect("mkdir");
+            for (i, b) in set.iter().enumerate() {
+                std::fs::write(d.join(format!("seed-{:03}", i)), b).expect("write");
+            }
+        }
+        return;
+    }
+    if id == "fuzz-replay" {
+        // bpcheck fuzz-replay <decode|verify> <file>: run the target's oracle once on a saved input (no libFuzzer)
+        std::panic::set_hook(Box::new(|_| {}));
+        let data = std::fs::read(&args[2]).expect("read input");
+        let r = std::panic::catch_unwind(|| match args[1].as_str() {
+            "decode" => bpv::fuzzdec::decode_target(&data),
+            _ => bpv::fuzzdec::verify_target(&data),
+        });
+        match r {
+            Ok(Ok(())) => {
+                println!("fuzz-replay: input passes");
+                std::process::exit(0)
+            },
+            Ok(Err(m)) => {
+                println!("fuzz-replay: ORACLE FAILURE: {}", m);
+                std::process::exit(1)
+            },
+            Err(_) => {
+                println!("fuzz-replay: PANIC");
+                std::process::exit(1)
+            },
+        }
+    }
     if id == "gen-vectors" {
         // bpcheck gen-vectors <out.json> <description of the tree it was recorded from>
         let f = bpv::props::c19::gen_vectors(args.get(2).map(|s| s.as_str()).unwrap_or("unknown"));
